@@ -958,6 +958,10 @@ static void list_output_msp430_both(
 
   fprintf(asm_context->list, "\n");
 
+  // An instruction that follows odd-length data is placed on the next even
+  // address by the assembler; the pad byte is not part of the instruction.
+  if ((start & 1) != 0) { start++; }
+
   while (start < end)
   {
     if (is_msp430x == false)
